@@ -134,6 +134,29 @@ def run(ctx):
     with ctx.rule("C10.REDISCOVER", "match re-discovery is confined to the reported range (shared with C09.REDISCOVER)", floor=3,
                   kind="GUARD/FLOW") as r:
         c09.rediscover_rule(ctx, r)
+    with ctx.rule("C10.MLPRED", "printers and searcher decide 'multi-line' by the same matcher-aware predicate", floor=5, kind="PARITY") as r:
+        RAW = "grep_searcher::searcher::Searcher::multi_line"
+        MLWM = "grep_searcher::searcher::Searcher::multi_line_with_matcher"
+        raw_users = sorted({c.fn.path.split("::{closure")[0] for c in facts.callers_of(RAW)} - {MLWM})
+        for u in raw_users:
+            if u.startswith("grep_printer::") or u.startswith("grep_searcher::searcher::"):
+                r.bad("raw|" + u, "%s consults the raw --multiline flag instead of multi_line_with_matcher: for a pattern that cannot "
+                      "match a line terminator it would count/print per match while the searcher works per line" % u, fn=u, construct="mlpred")
+        users = sorted({c.fn.path.split("::{closure")[0] for c in facts.callers_of(MLWM)})
+        need = ["grep_printer::standard::StandardImpl::multi_line", "grep_printer::summary::SummarySink::multi_line",
+                "grep_printer::util::Replacer::replace_all", "grep_printer::util::find_iter_at_in_context"]
+        for n in need:
+            if n in users:
+                r.ok("user|" + n.split("::")[-2] + "::" + n.split("::")[-1], "uses multi_line_with_matcher(&matcher)", fn=n)
+            else:
+                r.bad("user|" + n, "%s no longer decides multi-line mode with multi_line_with_matcher" % n, construct="mlpred")
+        # the summary sink's per-match counting branch is taken on that predicate
+        f = sink_fn(facts, SINKS["summary"], "matched")
+        if f.calls_to(SINKS["summary"] + "::multi_line"):
+            r.ok("summary|matched", "SummarySink::matched branches on self.multi_line(searcher)", fn=f)
+        else:
+            r.bad("summary|matched", "SummarySink::matched does not consult the matcher-aware multi-line predicate", fn=f, construct="mlpred")
+
     with ctx.rule("C10.KIND", "SummaryKind predicate tables (15 rows) and stats enabling", floor=16, exhaustive=True, kind="TABLE") as r:
         TAB = {
             "requires_stats": {"CountMatches"},
